@@ -69,7 +69,7 @@ def run_one(name, checks=None, tier="quick", seed="1"):
 
 def main():
     names = sys.argv[1:] or sorted(os.path.basename(p) for p in glob.glob(os.path.join(ROOT, "seeded", "*")) if os.path.isdir(p))
-    out_path = os.path.join(ROOT, "selftest", "RESULTS.json")
+    out_path = os.environ.get("SEEDED_OUT") or os.path.join(ROOT, "selftest", "RESULTS.json")  # SEEDED_OUT: parallel batches, merged later
     results = {}
     if os.path.exists(out_path):
         results = json.load(open(out_path))
